@@ -506,7 +506,64 @@ func (s *rqSim) run(steps int) {
 	if s.tid%4 == 3 {
 		s.restartCtx()
 	}
+	if s.tid%4 == 2 {
+		s.batchExpiry()
+	}
 	s.stress()
+}
+
+// batchExpiry: reads with very different deadlines share one batch (one step of the step worker) whose
+// context is never confirmed (a cut-off leader). The batch outlives its 30 ticks; every request in it must
+// still get its Timeout when its own deadline has passed, whatever the order in which they were queued.
+func (s *rqSim) batchExpiry() {
+	s.emit(rqEv{Op: "Init", NC: s.nc, Shards: pendingProposalShards})
+	s.setup()
+	s.tick = 0
+	s.doTick(3)
+	tos := []uint64{70, 45, 2, 50, 3}
+	if s.tid%8 == 2 {
+		tos = []uint64{2, 60, 40, 3}
+	}
+	oids := []int{}
+	for _, to := range tos {
+		r, err := s.reads.read(to)
+		ev := rqEv{Op: "Read", To: to, Err: errName(err)}
+		if err == nil {
+			ev.Oid, ev.Rid = s.accept(r)
+			oids = append(oids, ev.Oid)
+		}
+		s.emit(ev)
+	}
+	reqs := s.readQ.get()
+	rids := []int{}
+	for _, q := range reqs {
+		rids = append(rids, s.ridOf[s.oid(q)])
+	}
+	s.emit(rqEv{Op: "RIGet", Rids: rids})
+	ctx := s.reads.nextCtx()
+	s.reads.add(ctx, reqs)
+	id := uint64(len(s.ctxs) + 1)
+	s.ctxs = append(s.ctxs, id)
+	s.sysctx[id] = ctx
+	s.emit(rqEv{Op: "RIAdd", Ctx: id, N: ctx.High})
+	for i := 0; i < 90; i++ {
+		s.doTick(1)
+		s.reads.applied(1) // the apply worker reports progress: the table collects what has expired
+		s.emit(rqEv{Op: "RIApplied", N: 1})
+		if i%7 == 0 {
+			for _, o := range oids {
+				if _, ok := s.live[o]; ok {
+					s.poll(o)
+				}
+			}
+		}
+	}
+	for _, o := range oids {
+		if _, ok := s.live[o]; ok {
+			s.poll(o)
+		}
+	}
+	s.emit(rqEv{Op: "Final"})
 }
 
 // restartCtx: a read request is batched and forwarded to the leader, then the process is restarted (new
